@@ -393,7 +393,28 @@ ConfigShapes ==
   \cup {x \in ShapesARP : x.hlen = 6 /\ x.plen = 4 /\ x.flen \in {14 + 27, 14 + 28, 14 + 46}}
   \cup {x \in ShapesL2 : x.flen \in {14, 60}}
   \cup {x \in ShapesIP6Hdr : x.flen \in {14 + 40, 14 + 48}}
-ConfigCases == {[cfg |-> c, s |-> x] : c \in SessionConfigs, x \in ConfigShapes}
+(* K. Session state and process-global knobs.  What Parse decodes is a function of the bytes: it must not      *)
+(* depend on what other subsystems recorded for the frame's source (DHCP lease / offer, capture flag, host       *)
+(* offline) nor on the level of the package logger (a process-global knob; output discarded).  Only Host /       *)
+(* tracking may vary with the session state.                                                                     *)
+SessionStates == {"dhcp-ack",           \* Session.DHCPv4Update(src MAC, a LAN address) has run: host entry + IP4Offer
+                  "dhcp-offer",         \* Session.SetDHCPv4IPOffer(src MAC, a LAN address)
+                  "captured",           \* Session.Capture(src MAC)
+                  "captured-dhcp-ack",  \* both
+                  "host-offline"}       \* the frame's source was tracked and has been marked offline by the ageing pass
+LogLevels == {"error", "info", "debug"}  \* fastlog levels; "info" is the default of the package, "error" what the harness uses elsewhere
+StateShapes ==
+  ShapesApp \cup ShapesSrc \cup {x \in ShapesPorts : {x.sport, x.dport} \cap {67, 68} # {}}
+ErrShapes ==       \* every shape on which a mandatory header is truncated or length-inconsistent
+  {x \in ShapesShort \cup ShapesIP4Hdr \cup ShapesIP6Hdr \cup ShapesIP4L4 \cup ShapesIP6L4
+         \cup {y \in ShapesARP : y.src = "client" /\ y.sip = "lan"} : ParseOutcome(x).err}
+LogShapes == ErrShapes \cup ConfigShapes \cup ShapesApp
+Env(c, st, lg) == [cfg |-> c, state |-> st, log |-> lg]
+ConfigCases ==
+  {[env |-> Env(c, "none", "error"), s |-> x] : c \in SessionConfigs, x \in ConfigShapes}
+  \cup {[env |-> Env("default", st, "error"), s |-> x] : st \in SessionStates, x \in StateShapes}
+  \cup {[env |-> Env("default", "none", lg), s |-> x] : lg \in LogLevels \ {"error"}, x \in LogShapes}
+  \cup {[env |-> Env("default", "dhcp-ack", "debug"), s |-> x] : x \in ShapesApp}
 
 ParseShapes == ShapesEchoWaiter \cup ShapesShort \cup ShapesL2 \cup ShapesIP4Hdr \cup ShapesIP4L4 \cup ShapesIP6Hdr
                \cup ShapesIP6L4 \cup ShapesPorts \cup ShapesARP \cup ShapesSrc \cup ShapesVlanInner \cup ShapesApp
